@@ -111,7 +111,9 @@ package reverse
 
 // Provider side: one goroutine per call of a batch; nothing a peer sends may end the process (C11).
 //@ func (call).Value
+//@   prop C09
 //@   flag typeassert=panic
+//@   ensures [number_is_the_first_component] result0 == ival(c[0])
 //@ func (*Provider).process
 //@   prop C11 C09
 //@   nopanic
